@@ -210,7 +210,7 @@ def run(chk):
         "u16b2u16": ([(a, b) for a in (1, 2) for b in (1, 2)], [(1, 1), (1, 2), (2, 1)], ("alternate",)),
     } if quick else {
         "u8u8": ([(a, b) for a in (1, 2, 3) for b in (1, 2, 3)], [(a, b) for a in (1, 2) for b in (1, 2)], ("distinct", "crossed", "partial")),
-        "u16b2u16": ([(a, b) for a in (1, 2, 3) for b in (1, 2, 3)], [(a, b) for a in (1, 2) for b in (1, 2)], ("distinct", "crossed", "partial")),
+        "u16b2u16": ([(a, b) for a in (1, 2, 3) for b in (1, 2, 3) if a + b < 6], [(a, b) for a in (1, 2) for b in (1, 2)], ("distinct", "crossed")),
     }
     multi_cfgs = []
     for mname, base in MULTI.items():
